@@ -146,6 +146,10 @@ def static_block(draw: Any, depth: int) -> list[dict[str, Any]]:
     stmts: list[dict[str, Any]] = []
     for _ in range(draw(st.integers(1, 4 if depth else 3))):
         k = draw(st.integers(0, 13 if depth > 0 else 8))
+        if draw(st.integers(0, 9)) == 0:
+            # several identical cycle tags share one iterator, however each of them is marked
+            stmts.append({"t": "cycle", "group": None, "items": [["str", "p"], ["str", "q"], ["str", "r"]]})
+            continue
         if k <= 2:
             if stmts and stmts[-1]["t"] == "text":
                 continue
@@ -246,7 +250,7 @@ def linearise(stmts: list[dict[str, Any]], lin: Lin) -> None:
                 _ = w2
             else:
                 lin.mark(wc)
-        elif t in ("out", "assign", "echo", "liquid"):
+        elif t in ("out", "assign", "echo", "liquid", "cycle"):
             lin.mark(wc)
         elif t in ("if", "unless"):
             lin.mark(wc)
@@ -293,6 +297,11 @@ def run_model(stmts: list[dict[str, Any]], texts: dict[int, str], default: str, 
             out.append(e[1] if e[0] == "str" else env.get(e[1], ""))
         elif t == "echo":
             out.append(s["e"][1])
+        elif t == "cycle":
+            # all of these tags have the same (absent) group name and the same items: one iterator
+            k = int(env.get("\0cycle", "0"))
+            env["\0cycle"] = str(k + 1)
+            out.append(s["items"][k % len(s["items"])][1])
         elif t == "raw":
             w = s.get("wc4") or ["", "", "", ""]
             out.append(trim(s["s"], w[1], w[2], default))
